@@ -666,14 +666,22 @@ impl Monitor {
         }
         let limit = self.effective_limit as usize;
         // publishes not finally acknowledged, as the broker sees them
-        let open = self.broker_pubs.iter().filter(|b| !b.done).count();
+        // plus releases carried over from an earlier connection and re-sent on this one: their
+        // QoS 2 flow is open until the PUBCOMP as well
+        let carried = self
+            .completed_rels
+            .iter()
+            .filter(|id| !self.broker_pubs.iter().any(|b| b.pkid == **id && b.qos == 2 && b.acked && !b.done))
+            .count();
+        let open = self.broker_pubs.iter().filter(|b| !b.done).count() + carried;
         let queued = held.chan_len;
         let pending = held.pending_pubs.len() + held.pending_rels.len() + held.pending_other;
         if pending > 0 {
             return;
         }
         if let Some((pkid, tag)) = held.collision {
-            let resolvable = self.broker_pubs.iter().any(|b| b.pkid == pkid && !b.acked);
+            // the holder's final acknowledgement (PUBACK, or PUBCOMP after a PUBREC) frees the id
+            let resolvable = self.broker_pubs.iter().any(|b| b.pkid == pkid && !b.done);
             if !resolvable {
                 let d = format!("collision pending for packet id {pkid} (publish p{tag}) but no unacknowledged publish holds that id on this connection");
                 self.v("collision_unresolvable", d);
